@@ -75,18 +75,30 @@ func TestVerifC19GelfStream(t *testing.T) {
 	add := func(v c19gsViolation) {
 		res.NViolations++
 		res.ViolationsKinds[v.Kind]++
-		if len(res.Violations) < 20 {
+		if res.ViolationsKinds[v.Kind] <= 6 { // a few of every kind
 			res.Violations = append(res.Violations, v)
 		}
 	}
 	for round := 0; round < rounds; round++ {
-		nEvents := 20 + 4*round
-		padLen := 128 * 1024 // ~2.5-3.5 MB per batch
+		// the payload must exceed what the kernel buffers of a TCP connection can swallow while the receiver is not reading:
+		// the send buffer grows up to tcp_wmem[2] (4 MiB by default), the receive buffer is set to 64 KiB below
+		padLen := 128 * 1024
+		wmemMax := 4 << 20
+		if b, err := os.ReadFile("/proc/sys/net/ipv4/tcp_wmem"); err == nil {
+			if f := strings.Fields(string(b)); len(f) == 3 {
+				if v, err := strconv.Atoi(f[2]); err == nil && v > 0 {
+					wmemMax = v
+				}
+			}
+		}
+		nEvents := (wmemMax*3/2+(1<<20))/padLen + 4*round
 
 		// a receiver that cannot absorb the payload while it is not reading
 		lc := net.ListenConfig{Control: func(_, _ string, c syscall.RawConn) error {
 			var serr error
-			if err := c.Control(func(fd uintptr) { serr = syscall.SetsockoptInt(int(fd), syscall.SOL_SOCKET, syscall.SO_RCVBUF, 64*1024) }); err != nil {
+			if err := c.Control(func(fd uintptr) {
+				serr = syscall.SetsockoptInt(int(fd), syscall.SOL_SOCKET, syscall.SO_RCVBUF, 64*1024)
+			}); err != nil {
 				return err
 			}
 			return serr
@@ -139,7 +151,8 @@ func TestVerifC19GelfStream(t *testing.T) {
 		payload := 0
 		for i := 1; i <= nEvents; i++ {
 			svc, msg := fmt.Sprintf("host-%d", i), fmt.Sprintf("message %d \"quoted\" \\ back", i)
-			pad := strings.Repeat(fmt.Sprintf("%d.%d;", round, i), padLen/5)[:padLen+i]
+			unit := fmt.Sprintf("%d.%d;", round, i)
+			pad := strings.Repeat(unit, (padLen+i)/len(unit)+1)[:padLen+i]
 			js := fmt.Sprintf(`{"c19id":%d,"svc":%q,"msg":%q,"pad":%q}`, i, svc, msg, pad)
 			payload += len(js)
 			root := insaneJSON.Spawn()
